@@ -356,6 +356,14 @@ _CONFIG_FIELDS = (
 
 
 def _signal(case):
+    """the case's signal, in float64 or - "sig_dtype" - cast to another floating dtype ("every signal": the statement does
+    not restrict the signal's dtype)"""
+    x = _signal64(case)
+    dt = case.get("sig_dtype")
+    return x if dt in (None, "float64") else x.astype(np.dtype(dt))
+
+
+def _signal64(case):
     """Gaussian noise (default), or with "sig": "nyquist" / "dc" / "nyquist_dc" a tone at the Nyquist frequency /
     a constant / both, plus 1e-3 of the noise (energy concentrated in the bins a half-spectrum shortcut double counts)"""
     r = make_rng(case["seed"], "c02signal:%d:%d" % (case["N"], case.get("sig_id", 0)))
@@ -389,7 +397,7 @@ def _check_case(case, ctx):
     N = len(x)
     H = ctx.full_responses(case["bank"], D, case.get("rate", RATE))
     window = ctx.window(case["window"], case.get("window_seed", 0), case["frame_style"], L)
-    want_lin = _oracle_linear(case, x, H, window)
+    want_lin = _oracle_linear(case, np.asarray(x, dtype=np.float64), H, window)
     nf, ncoef = want_lin.shape
     info["frames"] = nf
     info["nonempty_filters"] = int(np.sum(np.any(H != 0, axis=1)))
@@ -478,6 +486,8 @@ def _compare(case, ctx, info, fails, got, want_lin, floor, stock, cfg, where):
         return False
 
     off = int(case["include_energy"])
+    # results are returned in the signal's dtype: their rounding (a few units in the last place of THAT dtype) is round-off
+    RTOL = max(globals()["RTOL"], 16 * float(np.finfo(got.dtype).eps)) if got.dtype.kind == "f" else globals()["RTOL"]
     got = got.astype(np.float64)
     if case["use_log"]:
         floored = want_lin < floor
@@ -726,8 +736,31 @@ def _enumerate_config(tier, seed):
                                 }
 
 
+def _enumerate_dtypes(tier, seed):
+    """"every signal": signals of every floating dtype numpy offers (float16, float32, long double) - the coefficients are the
+    documented sums of the signal's values whatever type carries them"""
+    banks = list(BANKS_QUICK)[:3] if tier == "quick" else list(BANKS_QUICK) + list(BANKS_EXTRA)
+    j = 0
+    for dt in ("longdouble", "float32", "float16"):
+        for bi, bank in enumerate(banks):
+            for (L, pad) in ((16, False), (25, True)):
+                style, kaldi = _STYLES[(j + bi) % len(_STYLES)]
+                s = max(1, L // 3)
+                if kaldi and s // 2 > L // 2:
+                    s = 1
+                flags = _FLAGS[(3 * j + bi) % 8]
+                j += 1
+                yield {
+                    "bank": bank, "frame_length": L, "frame_shift": s, "pad": pad, "dft_size": _dft_size(L, pad), "frame_style": style,
+                    "kaldi_shift": kaldi, "window": _WINDOWS[j % len(_WINDOWS)], "window_seed": int(seed), "use_log": False,
+                    "use_power": flags[1], "include_energy": flags[2], "N": 3 * L + 5, "amp": 1.0, "seed": int(seed), "sig_dtype": dt,
+                }
+
+
 def _enumerate(tier, seed):
     """yield cases; the most discriminating first"""
+    for case in _enumerate_dtypes(tier, seed):
+        yield case
     for case in _enumerate_config(tier, seed):
         yield case
     for case in _enumerate_edge(tier, seed):
